@@ -4,15 +4,27 @@ the de-cythonised codec modules (injected under their real names).
     this also validates the translator itself on every run;
   * pack -> unpack of corpus molecules (with 2D coordinates, stereo, isotopes/charges/radicals decorated), field by field;
   * reactions with 0..3 molecules per role incl. empty roles; pack_len == true atom counts; chython.unpach dispatch.
+Coverage audit (bounded/d10_extra.py, oracles/o10_layout.py): every contract of `d10_extra.judge` (bit-for-bit layout against an independent
+reference writer, field round trip, half-precision coordinates, length helpers, pack->unpack->pack identity, copy identity) on
+  * the 4200 published packs re-packed (bytes identical) and re-encoded by the reference writer (validates the oracle every run);
+  * every element x every tabulated isotope + both ends of the 5-bit window, charge x hydrogens x radical, atom numbers 1 / 4095;
+  * every bond order in every position of the 3-bit stream for every tail length, 0..15 neighbours, boundary atom numbers in both halves of
+    the 12-bit pairs and in cis/trans records, half-float boundaries, stereo labels on cumulenes of every length / rings / multi-component,
+    atom order != number order and shuffled bond insertion order, 4095 atoms, > 255 cis/trans records, the densest molecule (thorough);
+  * every keyword and alias of the wrappers, limit checks of check=True, invalid headers, version-0 reader through reference-written packs,
+    reactions with 0 / 1 / 255 molecules per role, packs after edits (stale caches).
 """
 import csv
+import itertools
 import struct
 import zipfile
+import zlib
 
 from vlib import env
 from vlib.report import pmap
 
-RULE = 'published packs + corpus round trips; non-trivial = molecule with a ring or a stereo label'
+RULE = ('published packs + corpus round trips; non-trivial = molecule with a ring or a stereo label; boundary families of the coverage audit: '
+        'one key per generated molecule / reaction / keyword case')
 
 
 def _view(m):
@@ -30,11 +42,19 @@ def _half(x):
     return math.copysign(math.floor(abs(x) / q) * q, x)
 
 
+def _str(x):
+    """canonical string of a library result; an exception of the library while writing it is part of the observation, not a checker fault"""
+    try:
+        return str(x)
+    except Exception as e:
+        return f'<{type(e).__name__}: {e}>'
+
+
 def _published(chunk):
     env.setup(pyx=True)
     from chython import smiles
     from chython.containers import MoleculeContainer
-    from oracles import iso
+    from oracles import iso, o10_layout as o10
     try:
         from oracles.o01_gaps import gaps as c01_gaps
     except Exception:
@@ -48,6 +68,18 @@ def _published(chunk):
         data = z.read(f'data/{i}.pach')
         try:
             mol = MoleculeContainer.unpack(data)
+            # published bytes are the reference of the layout: the decoded molecule packs to the same bytes, the independent reference
+            # writer reproduces them too (this validates oracles/o10_layout.py on published data every run)
+            raw = zlib.decompress(data)
+            if mol.pack(compressed=False) != raw:
+                viol.append((f'published-repack:{i}', f'pack(unpack(data/{i}.pach)) differs from the published bytes ({rows[i][2]})',
+                             {'index': i, 'smiles': rows[i][2]}))
+            if o10.encode(mol) != raw:
+                viol.append((f'published-layout:{i}', f'the molecule decoded from data/{i}.pach does not correspond to the published bytes '
+                             f'under the documented layout ({rows[i][2]})', {'index': i, 'smiles': rows[i][2]}))
+            pl = MoleculeContainer.unpack(data, _return_pack_length=True, skip_labels_calculation=True)[1]
+            if pl != len(raw):
+                viol.append((f'published-pack-length:{i}', f'_return_pack_length {pl} != {len(raw)} bytes', {'index': i}))
             ref = smiles(rows[i][2])
             for x in (mol, ref):
                 x.kekule()
@@ -88,6 +120,7 @@ def _roundtrip(chunk):
     from chython import smiles, unpach
     from chython.containers import MoleculeContainer
     from chython.periodictable import Element
+    from bounded import d10_extra as X
     out_n, nontrivial, viol = 0, [], []
     for seed, smi in chunk:
         r = random.Random(f'{env.SEED}:{seed}')
@@ -110,6 +143,7 @@ def _roundtrip(chunk):
             if r.random() < .3:
                 a = m._atoms[r.choice(list(m))]
                 a._implicit_hydrogens = None            # unknown hydrogen count must survive
+            m.flush_cache()                             # the decoration above bypasses the setters: no memoised ordering of the undecorated molecule
         except Exception:
             continue
         for compressed in (True, False):
@@ -133,11 +167,20 @@ def _roundtrip(chunk):
                     break
             if MoleculeContainer.pack_len(data, compressed=compressed) != len(m):
                 viol.append((f'pack_len:{smi}', 'pack_len differs from the atom count', {'smiles': smi}))
-            if compressed and str(unpach(data)) != str(u):
-                viol.append((f'unpach:{smi}', 'chython.unpach differs from MoleculeContainer.unpack', {'smiles': smi}))
+            if compressed and (_str(unpach(data)) != _str(u) or _str(u) != _str(m)):
+                viol.append((f'unpach:{smi}', 'chython.unpach differs from MoleculeContainer.unpack (or the canonical string changes over the round trip)', {'smiles': smi}))
             # the bond object is shared by both directions
             if any(u._bonds[a][b] is not u._bonds[b][a] for a in u._bonds for b in u._bonds[a]):
                 viol.append((f'shared-bond:{smi}', 'unpacked adjacency does not share one bond object per pair', {'smiles': smi}))
+        # coverage audit: all contracts of d10_extra.judge (layout against the reference writer, lengths, repack / copy identity, canonical
+        # string) on the decorated molecule, on a rebuild with shuffled atom / bond insertion order, and through the version-0 reader
+        wit = {'smiles': smi, 'seed': seed}
+        viol += X.judge(m, f'corpus:{smi}', wit, smiles_eq=True)
+        viol += X.judge_v0(m, f'corpus:{smi}', wit)
+        v = X.shuffled(m, r)
+        viol += X.judge(v, f'corpus-shuffled:{smi}', wit, smiles_eq=True)
+        viol += X.judge_v0(v, f'corpus-shuffled:{smi}', wit)
+        out_n += 4
         if m.rings_count or any(a.stereo is not None for _, a in m.atoms()):
             nontrivial.append('rt:' + smi)
     return out_n, nontrivial, viol
@@ -165,15 +208,427 @@ def _reactions(chunk):
             continue
         n += 1
         exp = [[str(m) for m in x] for x in (rx.reactants, rx.reagents, rx.products)]
-        got = [[str(m) for m in x] for x in (u.reactants, u.reagents, u.products)]
+        got = [[_str(m) for m in x] for x in (u.reactants, u.reagents, u.products)]
         if exp != got:
             viol.append((f'reaction-roles:{[len(x) for x in exp]}', f'roles after unpack {got} != {exp}', {'expected': exp, 'got': got}))
         explen = [[len(m) for m in x] for x in (rx.reactants, rx.reagents, rx.products)]
         if [list(x) for x in lens] != explen:
             viol.append((f'reaction-pack_len:{[len(x) for x in exp]}', f'pack_len {lens} != {explen}', {'expected': explen, 'got': [list(x) for x in lens]}))
-        if str(unpach(data)) != str(u):
+        if _str(unpach(data)) != _str(u):
             viol.append(('reaction-unpach', 'chython.unpach differs from ReactionContainer.unpack', {}))
         keys.append('rx:' + '/'.join(str(len(x)) for x in exp))
+    return n, keys, viol
+
+
+def _families(job):
+    """boundary families of bounded/d10_extra.py under the shared contract"""
+    env.setup(pyx=True)
+    import random
+    from bounded import d10_extra as X
+    kind, arg = job
+    r = random.Random(f'{env.SEED}:c10x:{kind}:{arg}')
+    n, keys, viol = 0, [], []
+    if kind == 'fields':
+        for z in arg:
+            for tag, m in X.field_molecules(z, r):
+                viol += X.judge(m, tag, {'Z': z})
+                if tag.startswith('fields:isotopes'):
+                    viol += X.judge_v0(m, tag, {'Z': z})
+                n += 1
+                keys.append(tag)
+    elif kind == 'orders':
+        for i, (tag, m) in enumerate(X.order_period_molecules(r)):
+            if i % 4 == arg:
+                viol += X.judge(m, tag)
+                viol += X.judge_v0(m, tag)
+                n += 1
+                keys.append(tag)
+    elif kind == 'stars':
+        for tag, m in X.star_molecules(r):
+            viol += X.judge(m, tag)
+            viol += X.judge_v0(m, tag)
+            n += 1
+            keys.append(tag)
+    elif kind == 'numbers':
+        for i, (tag, m) in enumerate(X.number_molecules(r)):
+            if i % 4 == arg:
+                viol += X.judge(m, tag)
+                n += 1
+                keys.append(tag)
+    elif kind == 'coords':
+        for tag, m in X.coordinate_molecules(r):
+            viol += X.judge(m, tag)
+            n += 1
+            keys.append(tag)
+    elif kind == 'stereo':
+        for i, (tag, m, kinds) in enumerate(X.stereo_molecules(r)):
+            if i % 4 == arg:
+                viol += X.judge(m, tag, smiles_eq=True)
+                viol += X.judge_v0(m, tag)
+                n += 1
+                keys.append(tag)
+                keys.append('stereo-kind:' + kinds + ':' + tag.split(':')[1])
+    elif kind == 'big':
+        for i, (tag, m, labels) in enumerate(X.big_molecules(arg[1])):
+            if i == arg[0]:
+                viol += X.judge(m, tag, labels=labels, copy=labels)
+                if labels:
+                    viol += X.judge_v0(m, tag)
+                n += 1
+                keys.append(tag)
+    else:
+        raise ValueError(kind)
+    return n, keys, viol
+
+
+def _raises(fn, *exc):
+    """None when fn() raises one of exc, else a description of what happened instead (exceptions of other types propagate as text too)"""
+    try:
+        r = fn()
+    except exc:
+        return None
+    except Exception as e:
+        return f'raised {type(e).__name__}: {e}'
+    return f'returned {str(r)[:60]!r}'
+
+
+def _keywords(_):
+    """every keyword / alias of the wrappers, limit checks, invalid headers"""
+    env.setup(pyx=True)
+    import random
+    import chython
+    from chython import smiles, unpach
+    from chython import containers as cont
+    from chython.containers import MoleculeContainer, ReactionContainer
+    from bounded import d10_extra as X
+    from oracles import o10_layout as L
+    n, keys, viol = 0, [], []
+
+    def bad(key, what, **wit):
+        viol.append((key, what, wit))
+    sm = ['C', '[Na+]', 'CCO', 'C/C=C/C', 'C[C@H](N)C(=O)O', 'CC=[C@]=CC', 'c1ccccc1O', 'C/C=C/C=C\\C.[13CH4]', 'OC1C(O)C(O)C(O)C(O)C1O', 'C1=C/CCCCCC/1',
+          'CC(=O)Oc1ccccc1C(=O)O', '[Fe+2].[O-]C(=O)C', '[CH3] |^1:0|']
+    for smi in sm:
+        m = smiles(smi)
+        random.seed(1)
+        m.clean2d()
+        raw = m.pack(compressed=False)
+        z = m.pack()
+        n += 1
+        keys.append('kw:' + smi)
+        same = {'compressed=True': zlib.decompress(z), 'check=False': m.pack(compressed=False, check=False), 'version=2': m.pack(compressed=False, version=2),
+                'pach': m.pach(compressed=False), 'pach(check=False, compressed=True)': zlib.decompress(m.pach(check=False)),
+                '__bytes__': zlib.decompress(bytes(m)), 'order=': m.pack(compressed=False, order=list(m)[::-1])}
+        for k, v in same.items():
+            if v != raw:
+                bad(f'keyword:{k}@{smi}', f'pack({k}) gives different bytes than pack(compressed=False) for {smi}', smiles=smi)
+        for v in (0, 1, 3, None):
+            e = _raises(lambda: m.pack(version=v), ValueError)
+            if e:
+                bad(f'keyword:version={v}@{smi}', f'pack(version={v}) must be rejected (only version 2 is written): {e}', smiles=smi)
+        ref = X.view(m)
+        readers = {'unpack': lambda: MoleculeContainer.unpack(z), 'unpack(compressed=False)': lambda: MoleculeContainer.unpack(raw, compressed=False),
+                   'unpack(compressed=True)': lambda: MoleculeContainer.unpack(z, compressed=True),
+                   'unpack(memoryview)': lambda: MoleculeContainer.unpack(memoryview(raw), compressed=False),
+                   'unpack(memoryview slice)': lambda: MoleculeContainer.unpack(memoryview(b'\x01\x01\x00\x00' + raw + b'\x02\x00')[4:], compressed=False),
+                   'Molecule.unpach': lambda: MoleculeContainer.unpach(z), 'Molecule.unpach(compressed=False)': lambda: MoleculeContainer.unpach(raw, compressed=False),
+                   'chython.unpach': lambda: unpach(z), 'chython.unpack': lambda: chython.unpack(z), 'containers.unpack(compressed=False)': lambda: cont.unpack(raw, compressed=False),
+                   'unpack(skip_labels_calculation=True)': lambda: MoleculeContainer.unpack(z, skip_labels_calculation=True),
+                   'unpack(_return_pack_length=True)[0]': lambda: MoleculeContainer.unpack(z, _return_pack_length=True)[0]}
+        for k, f in readers.items():
+            try:
+                u = f()
+            except Exception as e:
+                bad(f'reader-exc:{k}@{smi}', f'{k} raised {type(e).__name__}: {e} for {smi}', smiles=smi)
+                continue
+            if not isinstance(u, MoleculeContainer) or X.view(u) != ref:
+                bad(f'reader:{k}@{smi}', f'{k} returns a different molecule for {smi}', smiles=smi)
+        # labels: the default reader returns a molecule with calculated labels, equal to those of the packed molecule;
+        # skip_labels_calculation + calc_labels() gives the same
+        lab = lambda x: [(a.neighbors, a.hybridization, a.heteroatoms, a.explicit_hydrogens, a.in_ring, sorted(a.ring_sizes)) for _, a in x.atoms()] + \
+                        [b.in_ring for *_, b in x.bonds()]
+        u = MoleculeContainer.unpack(z)
+        s = MoleculeContainer.unpack(z, skip_labels_calculation=True)
+        s.calc_labels()
+        try:
+            lu, ls = lab(u), lab(s)
+        except AttributeError as e:
+            lu, ls = f'{e}', None
+        if lu != lab(m) or ls != lab(m):
+            bad(f'labels@{smi}', f'neighbour / hybridization / ring labels of the unpacked molecule differ from the packed one for {smi}', smiles=smi)
+        # _return_pack_length with trailing bytes (the way reactions are read)
+        for tail in (b'', b'\x02', raw, b'\xff' * 7):
+            try:
+                ln = MoleculeContainer.unpack(raw + tail, compressed=False, _return_pack_length=True, skip_labels_calculation=True)[1]
+            except Exception as e:
+                ln = f'{type(e).__name__}: {e}'
+            if ln != len(raw):
+                bad(f'pack-length-tail:{len(tail)}@{smi}', f'_return_pack_length with {len(tail)} trailing bytes gives {ln}, the pack has {len(raw)}', smiles=smi)
+        for k, f in {'pack_len': lambda: MoleculeContainer.pack_len(z), 'pack_len(compressed=True)': lambda: MoleculeContainer.pack_len(z, compressed=True),
+                     'pack_len(compressed=False)': lambda: MoleculeContainer.pack_len(raw, compressed=False)}.items():
+            try:
+                ln = f()
+            except Exception as e:
+                ln = f'{type(e).__name__}: {e}'
+            if ln != len(m):
+                bad(f'pack_len:{k}@{smi}', f'{k} gives {ln} for {smi} ({len(m)} atoms)', smiles=smi)
+        # invalid headers are rejected by every reader (1 is the reaction header, 3.. are unassigned)
+        for h in (1, 3, 4, 127, 255):
+            broken = bytes((h,)) + raw[1:]
+            for k, f in {'unpack': lambda: MoleculeContainer.unpack(broken, compressed=False), 'pack_len': lambda: MoleculeContainer.pack_len(broken, compressed=False),
+                         'unpack(compressed)': lambda: MoleculeContainer.unpack(zlib.compress(broken)), 'pack_len(compressed)': lambda: MoleculeContainer.pack_len(zlib.compress(broken))}.items():
+                e = _raises(f, ValueError)
+                if e:
+                    bad(f'header:{h}:{k}@{smi}', f'{k} of a pack with header byte {h} must raise ValueError: {e}', smiles=smi, header=h)
+            if h != 1:
+                for k, f in {'unpach': lambda: unpach(broken, compressed=False), 'Reaction.unpack': lambda: ReactionContainer.unpack(broken, compressed=False),
+                             'Reaction.pack_len': lambda: ReactionContainer.pack_len(broken, compressed=False)}.items():
+                    e = _raises(f, ValueError)
+                    if e:
+                        bad(f'header:{h}:{k}@{smi}', f'{k} of data with header byte {h} must raise ValueError: {e}', smiles=smi, header=h)
+        for k, f in {'Reaction.unpack': lambda: ReactionContainer.unpack(z), 'Reaction.pack_len': lambda: ReactionContainer.pack_len(z),
+                     'Reaction.unpach': lambda: ReactionContainer.unpach(raw, compressed=False)}.items():
+            e = _raises(f, ValueError)
+            if e:
+                bad(f'header:2:{k}@{smi}', f'{k} of a molecule pack must raise ValueError: {e}', smiles=smi)
+    # format limits which check=True must reject (molecule and reaction wrappers)
+    r = random.Random(env.SEED)
+    ok = smiles('CCO')
+    limits = {'empty': MoleculeContainer(),
+              'atom-number-4096': X.graph([(4096, X.atom(6, h=4))], []),
+              'atom-number-4096-bonded': X.graph([(1, X.atom(6, h=3)), (4096, X.atom(6, h=3))], [(1, 4096, 1)]),
+              'atom-number-70000': X.graph([(70000, X.atom(8, h=2)), (5, X.atom(6, h=4))], []),
+              '16-neighbours': X.graph([(1, X.atom(78, h=0))] + [(i, X.atom(17, h=0)) for i in range(2, 18)], [(1, i, 1) for i in range(2, 18)]),
+              '16-neighbours-last': X.graph([(i, X.atom(17, h=0)) for i in range(2, 18)] + [(1, X.atom(78, h=0))], [(i, 1, 8) for i in range(2, 18)]),
+              '20-neighbours': X.graph([(1, X.atom(78, h=0))] + [(i, X.atom(17, h=0)) for i in range(2, 22)], [(1, i, 1) for i in range(2, 22)])}
+    for k, m in limits.items():
+        n += 1
+        keys.append('limit:' + k)
+        for w, f in {'pack': lambda: m.pack(), 'pack(check=True, compressed=False)': lambda: m.pack(check=True, compressed=False), 'pach': lambda: m.pach(), 'bytes': lambda: bytes(m),
+                     'reaction.pack': lambda: ReactionContainer([ok], [m]).pack(), 'reaction.pack(reagent)': lambda: ReactionContainer([ok], [ok], [m]).pack(check=True),
+                     'reaction.pach': lambda: ReactionContainer([m], [ok]).pach()}.items():
+            e = _raises(f, ValueError)
+            if e:
+                bad(f'limit:{k}:{w}', f'{w} of a molecule outside the format limits ({k}) must raise ValueError: {e}', limit=k)
+    # the largest molecules inside the limits are accepted
+    for k, m in {'atom-number-4095': X.graph([(4095, X.atom(6, h=4))], []),
+                 '15-neighbours': X.graph([(1, X.atom(78, h=0))] + [(i, X.atom(17, h=0)) for i in range(2, 17)], [(1, i, 1) for i in range(2, 17)])}.items():
+        viol += X.judge(m, 'limit-inside:' + k)
+        n += 1
+    # check=False on the empty molecule: when it returns bytes they must decode to the empty molecule again
+    e = MoleculeContainer()
+    try:
+        raw = e.pack(check=False, compressed=False)
+    except Exception:
+        raw = None
+    if raw is not None:
+        try:
+            u = MoleculeContainer.unpack(raw, compressed=False)
+            okk = len(u) == 0 and MoleculeContainer.pack_len(raw, compressed=False) == 0 and raw == L.encode(e)
+        except Exception as ex:
+            okk = False
+        if not okk:
+            bad('empty:check=False', 'pack(check=False) of the empty molecule returns bytes which do not decode to the empty molecule')
+    # more than 255 molecules in a role cannot be framed
+    c = smiles('C')
+    for role in range(3):
+        for cnt in (256, 300):
+            roles = [[c], [], []]
+            roles[role] = [c] * cnt
+            e = _raises(lambda: ReactionContainer(roles[0], roles[2], roles[1]).pack(), ValueError, OverflowError)
+            if e:
+                bad(f'limit:role-{role}-{cnt}', f'a reaction with {cnt} molecules in role {role} must be rejected: {e}', role=role, count=cnt)
+            n += 1
+    return n, keys, viol
+
+
+def _rx_view(rx):
+    from bounded import d10_extra as X
+    return [[X.view(m) for m in x] for x in (rx.reactants, rx.reagents, rx.products)]
+
+
+def _rx_boundary(job):
+    """reactions with 0 / 1 / 2 / 255 molecules per role: framing, role slices, pack_len, dispatcher, keywords, version-0 molecules inside"""
+    env.setup(pyx=True)
+    import random
+    from chython import smiles, unpach
+    from chython.containers import MoleculeContainer, ReactionContainer
+    from bounded import d10_extra as X
+    from oracles import o10_layout as L
+    n, keys, viol = 0, [], []
+    for idx, sizes in job:
+        r = random.Random(f'{env.SEED}:c10rxb:{idx}')
+        pool = [smiles(s) for s in ('C', 'CCO', 'C/C=C/C', 'C[C@H](N)C(=O)O', 'C/C=C/C=C\\C', '[Na+]', 'CC=[C@]=CC', 'c1ccccc1', 'OC(=O)CC(O)(C(=O)O)CC(=O)O',
+                                    'C/C=C/C=C/C=C/C=C/C=C/C=C/C=C/CC', '[Cl-]', 'CC.CC.CCC')]
+        pool.append(X.chain([X.ORDERS[i % 5] for i in range(299)]))
+        pool.append(X.graph([(4095, X.atom(78, h=0))] + [(i, X.atom(17, h=0)) for i in range(2, 17)], [(4095, i, 1) for i in range(2, 17)]))
+        light = pool[:12]
+        roles = [[r.choice(pool if k <= 8 or i in (0, k - 1) else light) for i in range(k)] for k in sizes]          # reactants, reagents, products
+        many = sum(sizes) > 50
+        tag = 'rxb:' + '/'.join(map(str, sizes)) + f':{idx}'
+        wit = {'sizes': list(sizes), 'molecules': [[str(m)[:60] for m in x[:4]] for x in roles]}
+        rx = ReactionContainer(roles[0], roles[2], roles[1])
+        n += 1
+        keys.append(tag)
+        try:
+            raw = rx.pack(compressed=False)
+            z = rx.pack()
+            alt = {'compressed=True': zlib.decompress(z), 'check=False': rx.pack(compressed=False, check=False), 'pach': rx.pach(compressed=False), 'bytes': zlib.decompress(bytes(rx))}
+        except Exception as e:
+            viol.append((f'rx-pack-exc:{type(e).__name__}@{tag}', f'reaction pack raised {type(e).__name__}: {e} for role sizes {sizes}', wit))
+            continue
+        if raw != L.encode_reaction(*roles):
+            viol.append((f'rx-layout@{tag}', f'reaction pack bytes differ from the published framing for role sizes {sizes}', wit))
+        for k, v in alt.items():
+            if v != raw:
+                viol.append((f'rx-keyword:{k}@{tag}', f'reaction pack({k}) gives different bytes for role sizes {sizes}', wit))
+        exp = _rx_view(rx)
+        explen = [[len(m) for m in x] for x in roles]
+        for ver, data in ((2, raw), (0, L.encode_reaction(*roles, version=0))):
+            zz = zlib.compress(data)
+            readers = {'unpack': lambda: ReactionContainer.unpack(zz), 'unpack(compressed=False)': lambda: ReactionContainer.unpack(data, compressed=False),
+                       'Reaction.unpach': lambda: ReactionContainer.unpach(zz), 'chython.unpach': lambda: unpach(zz), 'chython.unpach(compressed=False)': lambda: unpach(data, compressed=False)}
+            if many:                  # every reader on the small reactions; the two entry points (and the compressed form once) on the long ones
+                readers = {k: f for k, f in readers.items() if k in (('unpack(compressed=False)', 'chython.unpach') if ver == 2 else ('unpack',))}
+            for k, f in readers.items():
+                try:
+                    u = f()
+                except Exception as e:
+                    viol.append((f'rx-reader-exc:v{ver}:{k}@{tag}', f'{k} raised {type(e).__name__}: {e} for role sizes {sizes} (molecule packs of version {ver})', wit))
+                    continue
+                if not isinstance(u, ReactionContainer) or _rx_view(u) != exp:
+                    got = [len(x) for x in (u.reactants, u.reagents, u.products)] if isinstance(u, ReactionContainer) else type(u).__name__
+                    viol.append((f'rx-roles:v{ver}:{k}@{tag}', f'{k}: roles after unpack {got} differ from the packed reaction {list(sizes)} (molecule packs of version {ver})', wit))
+                elif ver == 2 and k == 'unpack(compressed=False)':
+                    if u.pack(compressed=False) != raw:
+                        viol.append((f'rx-repack@{tag}', f'pack(unpack(pack(reaction))) differs for role sizes {sizes}', wit))
+            for k, f in {'pack_len': lambda: ReactionContainer.pack_len(zz), 'pack_len(compressed=False)': lambda: ReactionContainer.pack_len(data, compressed=False),
+                         'pack_len(memoryview)': lambda: ReactionContainer.pack_len(memoryview(data), compressed=False)}.items():
+                try:
+                    ln = [list(x) for x in f()]
+                except Exception as e:
+                    ln = f'{type(e).__name__}: {e}'
+                if ln != explen:
+                    viol.append((f'rx-pack_len:v{ver}:{k}@{tag}', f'{k} gives {str(ln)[:80]} for role sizes {sizes} (molecule packs of version {ver})', dict(wit, expected=str(explen)[:200])))
+        # a molecule pack is not a reaction and vice versa
+        e = _raises(lambda: MoleculeContainer.unpack(raw, compressed=False), ValueError)
+        if e:
+            viol.append((f'rx-as-molecule@{tag}', f'MoleculeContainer.unpack of a reaction pack must raise ValueError: {e}', wit))
+        e = _raises(lambda: MoleculeContainer.pack_len(z), ValueError)
+        if e:
+            viol.append((f'rx-as-molecule-len@{tag}', f'MoleculeContainer.pack_len of a reaction pack must raise ValueError: {e}', wit))
+    return n, keys, viol
+
+
+EDITS = ('add_atom_bond', 'delete_atom', 'delete_bond', 'reorder_bond', 'remap', 'clean_stereo', 'add_stereo', 'setters', 'kekule_thiele', 'hydrogens',
+         'standardize', 'union', 'substructure', 'transaction', 'calc_stereo_2d', 'copy_then_edit')
+
+
+def _edits(chunk):
+    """packs after edits: the pack of an edited molecule (caches primed by an earlier pack) satisfies every contract for the edited molecule"""
+    env.setup(pyx=True)
+    import random
+    from chython import smiles
+    from bounded import d10_extra as X
+    n, keys, viol = 0, [], []
+    for seed, smi in chunk:
+        for edit in EDITS:
+            r = random.Random(f'{env.SEED}:c10e:{seed}:{edit}')
+
+            def prime(x):                    # prime every cache the packer reads; a failing pack of an intermediate state is a violation
+                try:
+                    x.pack()
+                except Exception as e:
+                    viol.append((f'edit-pack-exc:{type(e).__name__}:{edit}:{smi}', f'pack raised {type(e).__name__}: {e} during edit {edit} of {smi}',
+                                 {'smiles': smi, 'seed': seed, 'edit': edit}))
+            try:
+                m = smiles(smi)
+                prime(m)
+                str(m)
+                atoms = list(m)
+                if edit == 'add_atom_bond':
+                    k = m.add_atom(r.choice(('C', 'N', 'O', 'Cl')), r.choice([x for x in range(1, 4096) if x not in m._atoms]))
+                    prime(m)
+                    m.add_bond(k, r.choice([x for x in atoms if m.atom(x).implicit_hydrogens] or atoms), 1)
+                elif edit == 'delete_atom':
+                    m.delete_atom(r.choice(atoms))
+                elif edit == 'delete_bond':
+                    a, b, _ = r.choice(list(m.bonds()))
+                    m.delete_bond(a, b)
+                elif edit == 'reorder_bond':
+                    a, b, bd = r.choice(list(m.bonds()))
+                    m.delete_bond(a, b)
+                    prime(m)
+                    m.add_bond(b, a, r.choice((1, 2, 3)))
+                elif edit == 'remap':
+                    m.remap(dict(zip(atoms, r.sample(range(1, 4096), len(atoms)))))
+                elif edit == 'clean_stereo':
+                    m.clean_stereo()
+                elif edit == 'add_stereo':
+                    m.clean_stereo()
+                    prime(m)
+                    for (a, b) in list(m.chiral_cis_trans):
+                        env4 = m.stereogenic_cis_trans[(a, b)]
+                        m.add_cis_trans_stereo(a, b, env4[0], env4[1], r.random() < .5)
+                        prime(m)
+                    for a in list(m.chiral_tetrahedrons):
+                        m.add_atom_stereo(a, m.stereogenic_tetrahedrons[a], r.random() < .5)
+                elif edit == 'setters':
+                    a = m.atom(r.choice(atoms))
+                    a.charge = r.choice((-1, 1, 2))
+                    a.is_radical = r.random() < .5
+                    a.x, a.y = r.uniform(-50, 50), r.uniform(-50, 50)
+                    if a.isotopes_distribution:
+                        a.isotope = r.choice(sorted(a.isotopes_distribution))
+                elif edit == 'kekule_thiele':
+                    m.kekule()
+                    prime(m)
+                    if r.random() < .7:
+                        m.thiele()
+                elif edit == 'hydrogens':
+                    m.kekule()
+                    m.explicify_hydrogens()
+                    prime(m)
+                    if r.random() < .5:
+                        m.implicify_hydrogens()
+                elif edit == 'standardize':
+                    m.canonicalize() if r.random() < .5 else m.standardize()
+                elif edit == 'union':
+                    o = smiles(r.choice(('C/C=C/C', 'O', '[Na+]', 'C[C@H](F)Cl')))
+                    prime(o)
+                    m = m.union(o, remap=True) if r.random() < .5 else (m | o.copy()) if not (set(m) & set(o)) else m.union(o, remap=True, copy=False)
+                elif edit == 'substructure':
+                    k = r.randint(1, len(atoms))
+                    m = m.substructure(r.sample(atoms, k))
+                elif edit == 'transaction':
+                    with m:
+                        a, b, _ = r.choice(list(m.bonds()))
+                        m.delete_bond(a, b)
+                        m.atom(a).charge = 1
+                elif edit == 'calc_stereo_2d':
+                    random.seed(seed)
+                    m.clean2d()
+                    m.clean_stereo()
+                    prime(m)
+                    m.calculate_cis_trans_from_2d()
+                elif edit == 'copy_then_edit':
+                    c = m.copy()
+                    prime(c)
+                    a, b, _ = r.choice(list(c.bonds()))
+                    c.delete_bond(a, b)
+                    viol += X.judge(m, f'edit:copy-source:{smi}', {'smiles': smi, 'seed': seed})
+                    m = c
+            except Exception:
+                continue                     # the edit itself is not this property's subject
+            n += 1
+            keys.append(f'edit:{edit}:{smi}')
+            try:
+                valid = not m.check_valence()
+            except Exception:
+                valid = False
+            # the terminal pair of a cis/trans record is defined for double-bond chains of valence-valid molecules: on an edit result with
+            # valence errors (e.g. a third neighbour on an inner cumulene atom) every other contract is kept, the reference writer is not asked
+            viol += X.judge(m, f'edit:{edit}:{smi}', {'smiles': smi, 'seed': seed, 'edit': edit}, layout=valid)
     return n, keys, viol
 
 
@@ -214,5 +669,56 @@ def bounded(run):
         for key, what, wit in viol:
             run.violation(key, what, witness=wit)
     run.bound(f'{nrx} seeded reactions with 0..3 molecules per role (empty roles included)')
+    # ---- coverage audit families (bounded/d10_extra.py)
+    jobs = [('fields', list(range(1, 119))[i::8]) for i in range(8)] + [('orders', i) for i in range(4)] + [('stars', 0), ('coords', 0)] + \
+           [('numbers', i) for i in range(4)] + [('stereo', i) for i in range(4)] + [('big', (i, thorough)) for i in range(6 if thorough else 4)]
+    for n, keys, viol in pmap(_families, jobs):
+        run.case(n)
+        for k in keys:
+            run.case(0, key=k)
+        for key, what, wit in viol:
+            run.violation(key, what, witness=wit)
+    from bounded import d10_extra as X
+    for t in ('every element 1..118 x (no isotope, every tabulated isotope, both ends of the 5-bit window) and x every charge -4..4 x hydrogens 0..6/unknown x radical; '
+              'single atoms numbered 1 and 4095',
+              'chains of 1..17 bonds: every order 1,2,3,4,8 in every position (natural traversal) + 3 seeded shuffles per length; stars with 0..15 neighbours, '
+              'two hubs with 15; all ordered pairs of 18 boundary atom numbers in the connection table and in cis/trans records',
+              f'{len(X.COORDS)} boundary coordinates (zero, negative zero, subnormal / normal / maximal half values and their neighbours, '
+              'out-of-range and infinite values) + 800 seeded coordinates with exponents -27..17',
+              f'{len(X.STEREO_SKELETONS)} stereo skeletons (cumulenes with 1..7 double bonds, rings, hetero, multi-component): every label assignment up to 3 '
+              'stereogenic elements, 14 seeded above; each also with shuffled insertion order and boundary atom numbers',
+              '4095-atom chain; 255 / 256 / 300 cis/trans records' + ('; 1023 records; 4095 atoms x 15 neighbours (30712 bonds, labels skipped)' if thorough else '')):
+        run.bound(t)
+    for n, keys, viol in pmap(_keywords, [0]):
+        run.case(n)
+        for k in keys:
+            run.case(0, key=k)
+        for key, what, wit in viol:
+            run.violation(key, what, witness=wit)
+    run.bound('13 molecules x every keyword / alias of pack, unpack, pack_len, unpach (compressed, check, version, order, skip_labels_calculation, _return_pack_length, '
+              'memoryview input); header bytes 1,3,4,127,255; 7 molecules outside the limits x 7 writers; 256 / 300 molecules per role')
+    big = (0, 1, 2, 255)
+    sizes = [s for s in itertools.product(big, repeat=3) if any(s)]
+    sizes += [s for s in itertools.product((0, 1, 3, 254), repeat=3) if any(s)] if thorough else []
+    rjobs = list(enumerate(sizes))
+    rjobs.sort(key=lambda x: -sum(x[1]))
+    for n, keys, viol in pmap(_rx_boundary, [rjobs[i::16] for i in range(16)]):
+        run.case(n)
+        for k in keys:
+            run.case(0, key=k)
+        for key, what, wit in viol:
+            run.violation(key, what, witness=wit)
+    run.bound(f'{len(sizes)} reactions: every combination of 0 / 1 / 2 / 255 molecules per role (molecules from a pool of 14 incl. stereo, multi-component, 300 atoms, '
+              '15 neighbours), molecule packs of version 2 (real writer) and version 0 (reference writer)')
+    esm = [s for s in D.corpus_sample(1500 if thorough else 60, 'c10edit')] + ['C/C=C/C', 'C/C=C/C=C\\C', 'C[C@H](F)/C=C/Cl', 'CC=[C@]=CC', 'C/C=C=C=C/C']
+    ejobs = list(enumerate(esm))
+    for n, keys, viol in pmap(_edits, [ejobs[i::16] for i in range(16)]):
+        run.case(n)
+        for k in keys:
+            run.case(0, key=k)
+        for key, what, wit in viol:
+            run.violation(key, what, witness=wit)
+    run.bound(f'{len(esm)} molecules x {len(EDITS)} edit kinds after a priming pack (edits that raise are skipped)')
     run.assume('the de-cythonised modules stand for the compiled extension (validated on the 4200 published packs every run)',
+               'the version-0 bond-order layout is taken from the bit diagram in _unpack_v0v2.pyx (no version-0 pack or text is shipped); it is used only to reach the version-0 reader',
                'RDKit is not used here; structure identity is judged by canonical string, with the isomorphism oracle inside C01\'s documented gaps')
